@@ -130,8 +130,7 @@ def jsonify_paths(chk: Check, repo: Repo) -> None:
         chk.ob("jsonify-returns-a-json-native-kind", f.site(n.ast), kind is not None, f"_jsonify: `return {txt}` — {kind or 'not one of the JSON-native forms under its guard'}", key=f"jsonify|{txt}")
     need = {"complex->as_dict", "enum->name.lower", "tuple->list of jsonified", "fallback->str"}
     chk.ob("jsonify-covers-complex-enum-tuple-fallback", f.site(), need <= seen_kinds, f"_jsonify forms present: {sorted(k for k in seen_kinds if k)}", key="jsonify|forms")
-    last = f.node.body[-1]
-    chk.ob("jsonify-returns-a-json-native-kind", f.site(), isinstance(last, ast.Return), "every path ends in a return (the last statement is the str() fallback)", key="jsonify|total")
+    chk.ob("jsonify-returns-a-json-native-kind", f.site(), not CFG(f.node).falls_off_end(), "every path ends in a return statement (no implicit `return None`)", key="jsonify|total")
     # values placed into results go through _jsonify
     mod = repo.module(TOOLS)
     for fn in mod.functions.values():
